@@ -260,6 +260,11 @@ def run(ctx, report):
     from .c16 import aff_reads_rule
     aff_reads_rule(ctx, R5)
 
+    # ---------------------------------------------------------------- D6 the cell a pop / push through esp really touches
+    R6 = report.rule('C08.D6', 'push/pop with esp as operand or base register: the written cell and the read cell are addressed with the value of esp IA-32 prescribes', floor=7)
+    from .c04 import stack_operand_rule
+    stack_operand_rule(ctx, R6, L, L.sem)
+
 
 def _derived_cell(mems, m):
     """A cell whose address is computed from the operand's address (bit-string instructions address base + offset)."""
